@@ -18,7 +18,7 @@ from sim import outcome, rng, seams, shrink, workload
 ID = "C13"
 MODULE = "checks.c13_factories"
 SIG_CLASSES = ["plain", "name", "kwonly", "varkw", "object", "partial", "builtin", "nddefault", "posonly-name", "varpos-signature", "wraps-plain", "wraps-name", "lru-name"]
-FAULTS = ["raise", "type-list", "type-none", "type-scalar", "type-duck", "type-memoryview", "type-npscalar", "shape-extra", "shape-transposed", "shape-broadcast"]
+FAULTS = ["raise", "raise-typeerror", "type-list", "type-none", "type-scalar", "type-duck", "type-memoryview", "type-npscalar", "shape-extra", "shape-transposed", "shape-broadcast"]
 
 
 class Duck:
@@ -114,6 +114,8 @@ def make_factory(sigclass, arr, pos, log, fault=None):
     def produce(shape):
         if fault == "raise":
             raise RuntimeError("factory failed (injected)")
+        if fault == "raise-typeerror":
+            raise TypeError("factory failed with a TypeError raised in its own body (injected)")
         if fault == "type-list":
             return arr.tolist()
         if fault == "type-none":
@@ -398,7 +400,7 @@ def exec_case(case, cfg):
             continue
         # ---- executed call ---------------------------------------------------------------------------
         if fault and fm is not None and any(args[j] is not np.ones for j in fpos):
-            faults["F-cb-raise" if fm == "raise" else ("F-cb-type" if fm.startswith("type") else "F-cb-shape")] += 1
+            faults["F-cb-raise" if fm.startswith("raise") else ("F-cb-type" if fm.startswith("type") else "F-cb-shape")] += 1
             if exc is None:
                 viol("faulty-factory-accepted", f"factory fault {fm} but the call returned {outcome.short(outcome.encode(result))}")
             continue
